@@ -15,6 +15,8 @@
     script = `.` | <v|p|r><microseconds>,...
     burst <limit> <timeout_ms> <u|p> <ring capacity> <jobs> <microseconds>  -> conc value=<jobs> panic=0 crash=0 dropped=0
       (one Proactor, small ring, all jobs pushed without polling; the completion channel is unbounded in the model)
+    busyfd <limit> <timeout_ms> <u|p> <script>   results while an fd is ready on every poll -> conc totals
+    parked <limit> <timeout_ms> <u|p> <hold_ms> <poll_timeout_ms>   shared pool held by a foreign dispatcher -> conc value=<limit+1> ..
 -/
 import Compio.Model.Common
 import Compio.Model.AsyncifyPool
@@ -203,6 +205,16 @@ def step (m : Mode) (line : String) : Mode × String :=
     match l.toNat?, n.toNat? with
     | some l, some n => (m, concOp l [List.replicate n Kind.value])
     | _, _ => (m, "bad-op")
+  | ["busyfd", l, _t, _drv, script], _ =>
+    -- `reap` is enabled whenever a completion entry exists, whatever else the driver has to do (fd events)
+    match l.toNat?, parseScript script with
+    | some l, some sc => (m, concOp l [sc])
+    | _, _ => (m, "bad-op")
+  | ["parked", l, _t, _drv, _hold, _pt], _ =>
+    -- a foreign dispatcher fills the shared pool; the driver's refused submission is retried by the driver itself
+    match l.toNat? with
+    | some l => (m, concOp l [List.replicate l Kind.value, [Kind.value]])
+    | none => (m, "bad-op")
   | ["hist", l], _ =>
     match l.toNat? with
     | some l => (.hist (some (Spec.sinit l)), "ok")
